@@ -892,6 +892,9 @@ func (p *ProjectRunner) removeProcess(name string) error {
 			return err
 		} else {
 			running.waitForCompletion()
+			// its goroutine may still be waiting for a dependency: it is not to be found under the
+			// name any more (a process added again under that name would be handed its state)
+			p.removeRunningProcess(running)
 		}
 	}
 	// the removed process has no state any more (a later GetProcessState must not find the stale one)
